@@ -70,6 +70,7 @@ def case_strategy(draw: Any, proto: str) -> Dict[str, Any]:
     return {
         "opening": opening,
         "requests": reqs,
+        "sched": draw(st.integers(0, 999)),
         "seg": draw(segmentation()),
         "cfg": {
             "max_app_queue_size": draw(st.sampled_from([1, 2, 3, 10])),
@@ -305,7 +306,7 @@ def run_case(case: Dict[str, Any]) -> CaseInfo:
         return await (scenario_h1(env, case) if h1 else scenario_h2(env, case))
 
     for be in BACKENDS:
-        obs = run_sim(be, cfg, programs, scenario)
+        obs = run_sim(be, cfg, programs, scenario, sched=case.get("sched", 0))
         judge(case, obs)
     reqs = case["requests"]
     classes = ["opening=" + case["opening"], "seg=" + case["seg"]["mode"],
